@@ -1,3 +1,5 @@
+import Props.GenJoinTail
 import Props.GenJoin
 open Model.SlicesGen
 #print axioms logDifference_eq
+#print axioms joinTail_eq
